@@ -450,3 +450,118 @@ def check_table(ctx, rule, near_rule, table, crate="asn1rs"):
 
 def fact_present_exact_in_entry(e, v):
     return v in e.get("all", []) or v in (e.get("any") or [])
+
+
+# ------------------------------------------------------------------ match tables (T7)
+def adt_of(P, crate, ty):
+    """ADT facts for a (possibly reference / generic) type string"""
+    from .taint import base_type
+    bt = base_type(ty)
+    for cand in (crate + "::" + bt, bt):
+        if cand in P.adts:
+            return P.adts[cand]
+    # std enums used in matches
+    if bt.endswith("option::Option"):
+        return {"variants": [{"name": "None", "discr": "0", "fields": []}, {"name": "Some", "discr": "1", "fields": []}]}
+    if bt.endswith("result::Result"):
+        return {"variants": [{"name": "Ok", "discr": "0", "fields": []}, {"name": "Err", "discr": "1", "fields": []}]}
+    return None
+
+
+class Arm:
+    __slots__ = ("path", "target", "switch_bb", "blocks")
+
+
+def match_tables(P, body, O=None):
+    """all `match` arms on enum discriminants in a body: list of Arm(path=((scrutinee, variant), …), target block, region)"""
+    O = O or X.Origins(body, P)
+    switches = []
+    for bb, t in body.switches():
+        n = len(body.blocks[bb]["stmts"])
+        ex = O.operand(t["op"], bb, n)
+        e = ex
+        while e[0] in ("cast",):
+            e = e[2]
+        if e[0] != "discr":
+            continue
+        # type of the scrutinee: from the discriminant statement
+        of = None
+        for j, s in enumerate(body.blocks[bb]["stmts"]):
+            if s["k"] == "assign" and s["rv"]["k"] == "discr":
+                of = s["rv"].get("of")
+        if of is None:
+            for d in body.defs.get(t["op"]["pl"]["l"], ()) if t["op"]["k"] in ("copy", "move") else ():
+                if d[2] == "assign" and d[3]["k"] == "discr":
+                    of = d[3].get("of")
+        adt = adt_of(P, body.crate, of or "")
+        if adt is None:
+            continue
+        by_discr = {v["discr"]: v["name"] for v in adt["variants"]}
+        arms = {}
+        for val, tgt in zip(t["vals"], t["targets"]):
+            arms.setdefault(tgt, []).append(by_discr.get(val, "#" + val))
+        listed = {by_discr.get(v) for v in t["vals"]}
+        rest = [v["name"] for v in adt["variants"] if v["name"] not in listed]
+        ot = t["otherwise"]
+        term_o = body.blocks[ot]["term"]
+        if rest and not (term_o and term_o["k"] == "unreachable"):
+            arms.setdefault(ot, []).extend(rest)
+        switches.append((bb, F.rd(positional(e[1])), arms))
+    # dominance regions
+    out = []
+    for bb, scrut, arms in switches:
+        for tgt, variants in arms.items():
+            region = {b for b in body.reachable if body.dominates(tgt, b)} if len(body.pred[tgt]) == 1 or all(
+                p == bb for p in body.pred[tgt]) else {tgt}
+            for v in variants:
+                a = Arm()
+                a.path = ((scrut, v),)
+                a.target = tgt
+                a.switch_bb = bb
+                a.blocks = region
+                out.append(a)
+    # nesting: prefix arms whose switch lies in another arm's region
+    changed = True
+    guard = 0
+    while changed and guard < 6:
+        changed = False
+        guard += 1
+        for a in out:
+            for b in out:
+                if a is b or b.switch_bb == a.switch_bb:
+                    continue
+                if a.switch_bb in b.blocks and b.path[0] not in a.path and len(b.path) == 1 and a.path[0] != b.path[0]:
+                    if (b.path + a.path) != a.path and not any(p == b.path[0] for p in a.path):
+                        a.path = b.path + a.path
+                        changed = True
+    return out
+
+
+def arm_effects(P, body, arm, O=None):
+    """named constants, constructed variants and calls inside the arm's region (excluding nested arms' own regions is left
+    to the caller)"""
+    O = O or X.Origins(body, P)
+    consts, aggs, calls, lits = [], [], [], []
+    for bb in sorted(arm.blocks):
+        for j, s in enumerate(body.blocks[bb]["stmts"]):
+            if s["k"] != "assign":
+                continue
+            rv = s["rv"]
+            ops = [rv.get(k) for k in ("op", "l", "r", "a")] + list(rv.get("ops", []))
+            for o in ops:
+                if isinstance(o, dict) and o.get("k") == "const":
+                    if o.get("path") and not o.get("promoted"):
+                        consts.append(o["path"].split("::")[-1])
+                    elif "val" in o and o.get("ty") not in ("bool",):
+                        lits.append(int(o["val"]))
+            if rv["k"] == "agg" and rv.get("ak") == "adt":
+                aggs.append("%s::%s" % (rv["adt"].split("::")[-1], rv["variant"]))
+        t = body.blocks[bb]["term"]
+        if t and t["k"] == "call":
+            fn = t["func"].get("fn")
+            if fn:
+                calls.append(X.short(fn.get("resolved") or fn["def"]))
+            for o in t["args"]:
+                if o.get("k") == "const" and o.get("path") and not o.get("promoted"):
+                    consts.append(o["path"].split("::")[-1])
+    return {"consts": consts, "aggs": aggs, "calls": calls, "lits": lits}
